@@ -100,6 +100,32 @@ def handler : Handler := fun op j =>
     match rngCall R numParams nargs (toK posKey) posSeed (toK kwKey) kwSeed (fun k => k) with
     | .error _ => some (err "value")
     | .ok (used, ret) => some (ok (jObj [("src", jS used.1), ("val", jI used.2), ("ret_src", jS ret.1), ("ret_val", jI ret.2)]))
+  | "opts" => do
+    -- constructor options / shared defaults: values are integers
+    let pat ← match (← fStr? j "pattern") with
+      | "byRef" => some OptPattern.byRef | "copyUpdate" => some OptPattern.copyUpdate
+      | "classUpdate" => some OptPattern.classUpdate | _ => none
+    let getDict (v : Json) : Option (Dict Int) := (getListOf? (fun kv => do
+        let a ← getListOf? some kv
+        match a with
+        | [k, x] => some ((← getStr? k), (← getInt? x))
+        | _ => none) v)
+    let lit ← (field? j "lit").bind getDict
+    let ops ← (fList? j "ops").bind (fun l => l.mapM (fun o => do
+      match (← fStr? o "k") with
+      | "dict" => some (OptOp.userDict (← (field? o "d").bind getDict))
+      | "ctor" => match field? o "arg" with
+        | none => some (OptOp.ctor none) | some .null => some (OptOp.ctor none)
+        | some v => (getNat? v).map (fun a => OptOp.ctor (some a))
+      | "mut" => some (OptOp.mutate (← fNat? o "id") (← fStr? o "key") (← fInt? o "val"))
+      | _ => none))
+    let jDict (d : Dict Int) : Json := jArr (d.map (fun kv => jArr [jS kv.1, jI kv.2]))
+    -- the state after every operation (so that the harness can compare step by step)
+    let step (acc : OptWorld Int × List Json) (o : OptOp Int) : OptWorld Int × List Json :=
+      let w := acc.1.apply pat lit o
+      (w, jObj [("insts", jNs w.insts), ("dicts", jArr (w.dicts.map jDict))] :: acc.2)
+    let r := ops.foldl step (OptWorld.init lit, [])
+    some (ok (jArr r.2.reverse))
   | _ => none
 
 def main : IO Unit := mainLoop handler
